@@ -406,6 +406,8 @@ func New(options Options) *Interpreter {
 
 	// fastChan disables the cancellable version of channel operations in evalWithContext
 	i.opt.fastChan, _ = strconv.ParseBool(os.Getenv("YAEGI_FAST_CHAN"))
+	// The choice is made once: a function compiled by Eval can be called by EvalWithContext.
+	i.cancelChan = !i.opt.fastChan
 
 	// specialStdio allows to assign directly io.Writer and io.Reader to os.Stdxxx,
 	// even if they are not file descriptors.
@@ -533,7 +535,6 @@ func (interp *Interpreter) EvalPath(path string) (res reflect.Value, err error) 
 func (interp *Interpreter) EvalPathWithContext(ctx context.Context, path string) (res reflect.Value, err error) {
 	interp.mutex.Lock()
 	interp.done = make(chan struct{})
-	interp.cancelChan = !interp.opt.fastChan
 	interp.mutex.Unlock()
 
 	done := make(chan struct{})
@@ -586,7 +587,6 @@ func (interp *Interpreter) EvalWithContext(ctx context.Context, src string) (ref
 
 	interp.mutex.Lock()
 	interp.done = make(chan struct{})
-	interp.cancelChan = !interp.opt.fastChan
 	interp.mutex.Unlock()
 
 	done := make(chan struct{})
